@@ -44,6 +44,10 @@ def OP_EQ(
         left: func_xltypes.XlAnything,
         right: func_xltypes.XlAnything
 ) -> func_xltypes.XlBoolean:
+    # Errors are values that propagate (the leftmost one wins).
+    for operand in (left, right):
+        if isinstance(operand, xlerrors.ExcelError):
+            return operand
     return left == right
 
 
@@ -52,6 +56,10 @@ def OP_NE(
         left: func_xltypes.XlAnything,
         right: func_xltypes.XlAnything
 ) -> func_xltypes.XlBoolean:
+    # Errors are values that propagate (the leftmost one wins).
+    for operand in (left, right):
+        if isinstance(operand, xlerrors.ExcelError):
+            return operand
     return left != right
 
 
